@@ -55,27 +55,31 @@ def validate_word(xsd_element: Any, k: int, word: list[str], ids: dict[int, int]
     return elem, out, other
 
 
-def run_batch(ctx: Ctx, drv: Optional[Driver], models: list[tuple], v11: bool, maxlen: int, fam: str,
-              oc: Optional[tuple] = None) -> None:
+def prepare_batch(args):
+    """Python side of one batch (runs in a worker process in the thorough tier): builds the schema,
+    validates every word with the real code and returns what the Lean driver and the judge need."""
+    import random
+    models, v11, maxlen, fam, oc, quick, seed = args
+    rng = random.Random(seed)
     schema = cm.build_schema(models, v11, oc=oc)
-    reqs = []
-    pend = []
+    reqs, pend, counts, glue = [], [], {}, []
     for k, ast in enumerate(models):
         xe = schema.elements[f'm{k}']
         group = xe.type.content
         built_ok = not xe.type.errors and not group.errors and all(not c.errors for c in group.iter_components())
         det = cm.upa_ok(ast, v11=v11)
-        ctx.count(f'{fam}:built={built_ok},det={det}')
+        key = f'{fam}:built={built_ok},det={det}'
+        counts[key] = counts.get(key, 0) + 1
         if not built_ok or det is not True:
             continue
         intro = cm.Introspector(group)
         if cm.ast_of_json(intro.json) != cm.strip_refs(ast):
-            ctx.mismatch('parsed group differs from the declared model', {'model': cm.show(ast)},
-                         cm.ast_of_json(intro.json), cm.strip_refs(ast))
+            glue.append(('parsed group differs from the declared model', {'model': cm.show(ast)},
+                         cm.ast_of_json(intro.json), cm.strip_refs(ast)))
             continue
         for g in intro.glue:
-            ctx.mismatch('substitution group computed by the schema differs from the declared closure',
-                         {'model': cm.show(ast)}, g['substitutes_built'], g['substitutes_declared'])
+            glue.append(('substitution group computed by the schema differs from the declared closure',
+                         {'model': cm.show(ast)}, g['substitutes_built'], g['substitutes_declared']))
         alpha = cm.alphabet(ast)
         if 'h' in alpha and 'q' not in alpha:
             alpha = alpha + ['q']       # the abstract member: must never be accepted
@@ -84,12 +88,12 @@ def run_batch(ctx: Ctx, drv: Optional[Driver], models: list[tuple], v11: bool, m
         if oc is not None:
             wobj = xe.type.open_content.any_element
             ocj = {'mode': oc[0], 'wild': intro.walk(wobj)}
-        if ctx.quick() or fam == 'random':
-            words = cm.word_set(ctx.rng, ast, alpha + foreign, 3 if len(alpha) < 3 else 2, maxlen + 2, 40)
+        if quick or fam in ('random', 'group-refs', 'open-content'):
+            words = cm.word_set(rng, ast, alpha + foreign, 3 if len(alpha) < 3 else 2, maxlen + 2, 40)
         else:
             words = list(cm.words_upto(alpha + foreign, maxlen))
             if len(words) > 400:
-                words = words[:150] + ctx.rng.sample(words[150:], 250)
+                words = words[:150] + rng.sample(words[150:], 250)
         ids = {id(o): i for i, o in enumerate(intro.objs)}
         impl = []
         for w in words:
@@ -98,6 +102,20 @@ def run_batch(ctx: Ctx, drv: Optional[Driver], models: list[tuple], v11: bool, m
             impl.append({'valid': valid, 'errs': errs, 'other': other})
         reqs.append({'n': len(intro.objs), 'model': intro.json, 'words': [cm.word_json(w) for w in words], 'oc': ocj})
         pend.append((ast, words, impl))
+    return reqs, pend, counts, glue, (v11, fam, oc)
+
+
+def run_batch(ctx: Ctx, drv: Optional[Driver], models: list[tuple], v11: bool, maxlen: int, fam: str,
+              oc: Optional[tuple] = None) -> None:
+    judge_batch(ctx, drv, prepare_batch((models, v11, maxlen, fam, oc, ctx.quick(), ctx.rng.random())))
+
+
+def judge_batch(ctx: Ctx, drv: Optional[Driver], prepared) -> None:
+    reqs, pend, counts, glue, (v11, fam, oc) = prepared
+    for k, n in counts.items():
+        ctx.count(k, n)
+    for g in glue:
+        ctx.mismatch(*g)
     answers = drv.query(reqs) if drv is not None and reqs else [None] * len(reqs)
     for (ast, words, impl), ans in zip(pend, answers):
         mshow = cm.show(ast)
@@ -199,9 +217,34 @@ def corpus(ctx: Ctx) -> None:
                 ctx.known_hit(KNOWN_ID)
 
 
+def run_parallel(ctx: Ctx, drv: Optional[Driver]) -> None:
+    """thorough tier: the Python side of the batches runs in worker processes"""
+    import multiprocessing as mp
+    import os
+    jobs = []
+    for fam, v11, models, maxlen in families(ctx):
+        oc = None
+        if isinstance(fam, tuple):
+            fam, oc = fam
+        for i in range(0, len(models), 40):
+            jobs.append((models[i:i + 40], v11, maxlen, fam, oc, False, ctx.rng.random()))
+    nproc = max(2, min(12, (os.cpu_count() or 4) - 2))
+    with mp.get_context('fork').Pool(nproc) as pool:
+        for k, prepared in enumerate(pool.imap_unordered(prepare_batch, jobs, chunksize=1)):
+            judge_batch(ctx, drv, prepared)
+            if ctx.time_left() < 120:
+                ctx.notes.append(f'time budget reached after {k + 1} of {len(jobs)} batches')
+                pool.terminate()
+                break
+    ctx.extra['batches'] = len(jobs)
+
+
 def run(ctx: Ctx, driver_ok: bool) -> None:
     drv = Driver('drv_c01') if driver_ok else None
     corpus(ctx)
+    if not ctx.quick():
+        run_parallel(ctx, drv)
+        return
     for fam, v11, models, maxlen in families(ctx):
         oc = None
         if isinstance(fam, tuple):
